@@ -53,4 +53,17 @@ CLAIMS = {
               "the specified equations; acyclicity of references (an operation can only refer to an earlier one)."),
         technique="static analysis: affine/Boolean normal forms of the relation equations, loop summaries, feasible-path enumeration of add_to_graph",
     ),
+    "C04": dict(
+        text=("Decides the span computation from its source: the two accumulations of CircuitCompositeOperation.duration are "
+              "summarised as running extremes (direction from the comparison, candidate as a function of the element, initial "
+              "value, iteration domain) and the returned expression is normalised to  max over nodes of end_time  -  min over "
+              "nodes of start_time ; both must range over ALL nodes of the block's graph (not a depth layer, the relation "
+              "leaves or a slice), the minimum must be complete before it is subtracted, accumulators must start neutral, "
+              "and only an empty block may return the constant 0. The figure width of the drawing is decided the same way "
+              "(max(1, latest end over all listed operations) + 1). Holds for every block shape because it is a statement "
+              "about the code, not about sampled circuits."),
+        note=("Not decided: the 'consequently' sentence (a corollary of D1/D2 with C01). Trusted: end_time = start_time + "
+              "duration (C01.R2); durations are non-negative (so 0 is neutral for a maximum of end - earliest start)."),
+        technique="static analysis: loop summaries of min/max accumulators with iteration-domain classification; affine normal form of the result",
+    ),
 }
